@@ -116,3 +116,48 @@ def discharge(engine, obligations, procs=None, want_models=True, log=None):
     for ob in obligations:
         if hasattr(ob, "smt2") and ob.status == "proved":
             del ob.smt2
+
+
+def _cover(job):
+    idx, smt2, timeout_ms = job
+    try:
+        s = z3.Solver()
+        s.set("timeout", timeout_ms)
+        s.from_string(smt2)
+        return idx, str(s.check())
+    except Exception:
+        return idx, "unknown"
+
+
+def cover_check(engine, procs=None, timeout_ms=3000):
+    """Anti-vacuity: the path condition at every path end must not be refutable.  Returns per target the set of
+    (function, line) reached on some path end that is not provably infeasible, and the count of infeasible ends."""
+    procs = procs or min(16, os.cpu_count() or 4)
+    axioms = list(engine.axioms) + str_distinct_axioms()
+    jobs = []
+    for i, (tname, pc, stmts, what) in enumerate(engine.terminals):
+        sol = z3.Solver()
+        for a in axioms:
+            sol.add(a)
+        for c in pc:
+            sol.add(c)
+        jobs.append((i, sol.to_smt2(), timeout_ms))
+    res = {}
+    if jobs:
+        ctx = mp.get_context("fork")
+        with ctx.Pool(procs) as pool:
+            for idx, r in pool.imap_unordered(_cover, jobs, chunksize=2):
+                res[idx] = r
+    out = {}
+    for i, (tname, pc, stmts, what) in enumerate(engine.terminals):
+        d = out.setdefault(tname, {"reached": set(), "ends": 0, "infeasible_ends": 0, "sat_ends": 0, "normal_reachable": False})
+        d["ends"] += 1
+        if res.get(i) == "unsat":
+            d["infeasible_ends"] += 1
+            continue
+        if res.get(i) == "sat":
+            d["sat_ends"] += 1
+        d["reached"] |= stmts
+        if what == "return":
+            d["normal_reachable"] = True
+    return out
